@@ -38,10 +38,14 @@ ATOMS = ["n", "b", "i", "f", "s", "l", "d", "e", "el", "missing", "spy", "1", "0
          "d.a", "d.a.b", "s.x", "l[0]", "l[9]", "l[-1]", "d['a']", "d[l]", "d[d]", "l[s]", "l[b]", "i[0]", "n.x", "x.y.z"]
 UN = ["not {}", "-{}", "+{}", "~{}"]
 BIN = ["{} == {}", "{} != {}", "{} < {}", "{} >= {}", "{} in {}", "{} not in {}", "{} is {}", "{} is not {}", "{} and {}", "{} or {}",
-       "{} + {}", "{} * {}", "{} if {} else 1", "[{}, {}]", "({}, {})", "{}[{}]", "{} < {} < 3", "{}({})", "{{{}: {}}}"]
+       "{} + {}", "{} * {}", "{} if {} else 1", "[{}, {}]", "({}, {})", "{}[{}]", "{} < {} < 3", "{}({})", "{{{}: {}}}", "{{{}, {}}}",
+       "{} in {{{}, 1}}", "{}[{}:]", "[*{}, {}]"]
 HOSTILE = ["", "   ", "__import__('os').system('true')", "(lambda: 1)()", "[x for x in l]", "exec('1')", "d.__class__", "a = 1", "1 +", "((((",
            "x := 1", "f'{s}'", "*l", "not", "'unterminated", "1 if", "d[", "\x00", "spy()", "spy.attr", "l[0:1]", "-" * 50 + "i", "not " * 40 + "b",
-           "(" * 30 + "1" + ")" * 30, "i ** 100", "s % s", "await x", "yield 1", "...", "True", "1", "0", "false", "TRUE", "null", "none"]
+           "(" * 30 + "1" + ")" * 30, "i ** 100", "s % s", "await x", "yield 1", "...", "True", "1", "0", "false", "TRUE", "null", "none",
+           "{l}", "{[]}", "{d}", "{1, 2}", "{s, i}", "i in {l}", "{[1]: 1}", "{d: 1}", "{**d}", "{*l}", "[*l]", "(*l, 1)", "l[::2]", "l[b:i]",
+           "{x for x in l}", "{k: 1 for k in l}", "(x for x in l)", "(yield 1)", "(yield from l)", "(await spy)", "lambda: 1", "f'{s!r:>{i}}'",
+           "b'x'", "1j", "(w := 1)", "s if b else l", "(s, l) in [(s, l)]", "[l] == [l]", "not [d]", "-(1,)", "~b"]
 failures, cases, nontrivial, samples = [], 0, 0, []
 
 
@@ -65,7 +69,23 @@ def run(text):
             failures.append({"text": text, "why": "a context object was called / introspected"})
 
 
+# every expression node class of this interpreter's grammar occurs in the corpus (a class the evaluator starts to accept is then
+# exercised with hashable and unhashable operands); a class missing here is a gap of the harness, reported as an error, not a violation
+import ast
+
+seen_nodes = set()
+
+
+def note(text):
+    try:
+        for nd in ast.walk(ast.parse(text.strip(), mode="eval")):
+            seen_nodes.add(type(nd))
+    except (SyntaxError, ValueError, RecursionError, MemoryError):
+        pass
+
+
 for t in HOSTILE + ATOMS:
+    note(t)
     run(t)
 lvl1 = [u.format(a) for u in UN for a in ATOMS] + [b.format(x, y) for b in BIN for x, y in itertools.product(ATOMS[:22], repeat=2)]
 for t in lvl1:
@@ -83,5 +103,12 @@ else:
     for u in UN:
         for t in lvl1[::29]:
             run(u.format("(" + t + ")"))
+for t in lvl1[::11]:
+    note(t)
+missing_nodes = sorted(c.__name__ for c in ast.expr.__subclasses__() if c not in seen_nodes and c.__module__ in ("ast", "_ast")
+                       and c.__name__ not in ("Num", "Str", "Bytes", "NameConstant", "Ellipsis"))
+if missing_nodes:
+    print("harness gap: no corpus text contains the expression node classes", missing_nodes, file=sys.stderr)
+    sys.exit(3)
 samples = [lvl1[3], lvl1[400], HOSTILE[2]]
 done(cases, nontrivial, failures, f"grammar depth <= {'3 (subsampled)' if tier == 'thorough' else '2'} x 3 contexts + {len(HOSTILE)} hostile texts", samples)
